@@ -92,13 +92,15 @@ func solveOne(file string, timeoutS, seed int, single string) solveResult {
 	first := r
 	rctx, cancel := context.WithCancel(ctx)
 	defer cancel()
-	ch := make(chan solveResult, len(solvers))
-	for _, sd := range solvers {
+	// second stage: z3-new and cvc5 race with the full budget; the old z3 is consulted only when
+	// neither decides (it rarely wins and costs a core)
+	ch := make(chan solveResult, 2)
+	for _, sd := range solvers[:2] {
 		sd := sd
 		go func() { ch <- runSolver(rctx, sd, file, timeoutS, seed) }()
 	}
 	best := first
-	for range solvers {
+	for i := 0; i < 2; i++ {
 		r := <-ch
 		if r.answer == "sat" || r.answer == "unsat" {
 			return r
@@ -106,6 +108,10 @@ func solveOne(file string, timeoutS, seed int, single string) solveResult {
 		if best.answer == "error" || (best.answer == "timeout" && r.answer == "unknown") {
 			best = r
 		}
+	}
+	r3 := runSolver(ctx, solvers[2], file, timeoutS/2+1, seed)
+	if r3.answer == "sat" || r3.answer == "unsat" {
+		return r3
 	}
 	return best
 }
@@ -138,7 +144,11 @@ func solveAll(obls []*Obligation, workDir string, timeoutS, seed, workers int, s
 					o.Status = "error"
 					continue
 				}
-				r := solveOne(file, timeoutS, seed, single)
+				to := timeoutS
+				if o.Expect == "sat" && to > 5 {
+					to = 5 // vacuity guards: a path that is not refuted within 5 s is not vacuous
+				}
+				r := solveOne(file, to, seed, single)
 				o.Answer, o.Solver, o.TimeS, o.Model = r.answer, r.solver, r.timeS, r.model
 				if r.answer == "error" {
 					o.Model = trunc(r.raw, 400)
